@@ -51,7 +51,18 @@ def scratch(prefix="verif-tlc-"):
     return tempfile.mkdtemp(prefix=prefix)
 
 
-def run_tlc(module, cfg, *, workers=16, env=None, timeout=1800, coverage=False, deadlock=False,
+def run_tlc(module, cfg, **kw):
+    """run_tlc_once with one retry: a JVM that dies without a verdict (memory pressure on a loaded machine) is not a verdict."""
+    try:
+        return run_tlc_once(module, cfg, **kw)
+    except MachineryError as e:
+        if "timeout" in str(e) or "missing cfg" in str(e):
+            raise
+        time.sleep(3)
+        return run_tlc_once(module, cfg, **kw)
+
+
+def run_tlc_once(module, cfg, *, workers=16, env=None, timeout=1800, coverage=False, deadlock=False,
             dump_dot=None, simulate=None, depth=None, seed=None, extra=(), heap="8g", keep=None,
             dfs=False):
     """Run TLC on /verif/spec/<module>.tla with config <cfg> (path relative to spec/ or absolute)."""
